@@ -151,11 +151,23 @@ impl Router {
         }
         register! { GET, PUT, POST, PATCH, DELETE }
 
+        /* a route can be declared in pieces: advertise all methods registered for it so far */
+        let methods = self.available_methods_of(&route).unwrap_or(methods);
+
         self.OPTIONS.register_handler(
             route.into_iter(),
             Handler::default_options_with(methods),
             true
         ).expect("Failed to register handler");
+    }
+
+    /// all methods registered for the route in this router, in the canonical order
+    fn available_methods_of(&self, route: &RouteSegments) -> Option<Vec<&'static str>> {
+        let registered = self.routes.get(route)?;
+        Some([Method::GET, Method::PUT, Method::POST, Method::PATCH, Method::DELETE].into_iter()
+            .filter(|method| registered.get(method).is_some())
+            .map(|method| method.as_str())
+            .collect())
     }
 
     pub(crate) fn merge_another(&mut self, another: ByAnother) {
@@ -167,8 +179,11 @@ impl Router {
             another: {another_routes:#?}\n\
         ");
 
+        let mut merged_routes = Vec::with_capacity(another_routes.routes.len());
         for (another_route, map) in &another_routes.routes {
-            self.routes.entry(RouteSegments::merged(route.clone(), another_route.clone()))
+            let merged_route = RouteSegments::merged(route.clone(), another_route.clone());
+            merged_routes.push(merged_route.clone());
+            self.routes.entry(merged_route)
                 .and_modify(|it| it.append(map.clone()))
                 .or_insert_with(|| map.clone());
         }
@@ -195,6 +210,17 @@ impl Router {
         merge! {
             GET, PUT, POST, PATCH, DELETE,
             OPTIONS(allow_override_handler = true)
+        }
+
+        /* the merged OPTIONS handlers only know another's methods: unite them with self's */
+        for merged_route in merged_routes {
+            if let Some(methods) = self.available_methods_of(&merged_route) {
+                self.OPTIONS.register_handler(
+                    merged_route.into_iter(),
+                    Handler::default_options_with(methods),
+                    true
+                ).expect("Failed to register handler");
+            }
         }
 
         crate::DEBUG!("merged: {self:#?}");
